@@ -17,10 +17,10 @@ T = {
             'value-level routes are compositions validated by correspondence', 'Coq proof: frame + layout invariant over token-list model'),
     'C04': ('Theorems about Comments.v (claim/unclaim/shift as list surgery): every step permutes only zero-width placeholders, the subsequence of visible tokens is identical, hence printed text unchanged, for every call sequence; read-only API by snapshot monitor.',
             'getters are pure in the model; that the implementation\'s getters do not write is established by the snapshot monitor', 'Coq proof: permutation-of-placeholders invariant'),
-    'C05': ('Theorems about the generic tree model driven by descriptors re-extracted from models/generated on every run (Generated.v + GeneratedWf by vm_compute): reattach reaches every declared field (no node left on a stale store), first/last chains are the scheme\'s, clone/leaves; WF statement evaluated on the implementation after every edit of seeded histories over the whole API.',
-            'hand-written classes by correspondence only; edit algorithms\' preservation of WF rests on C03/C07 theorems + monitor', 'translator (ast, fail-closed) + Coq proof over generic tree model + WF monitor'),
-    'C06': ('Partial: proved that formatted layouts enumerate declared fields in order and pivots are the scheme\'s (per-run, generated classes); the re-parse statement itself needs the real lexer/parser and is decided by the monitor: after every edit of seeded syntax-preserving histories the document is printed, re-parsed and compared field by field.',
-            'lark is an oracle; separation invariant is C03\'s', 'translator + Coq facts on generated layouts; re-parse monitor'),
+    'C05': ('Theorems over the generic tree model driven by descriptors re-extracted from models/generated on every run (GeneratedWf by vm_compute): the C05 statement as a predicate WF with a verified checker wf_b (sound), preserved by reattach, clone, construction (partial) and by plugging a re-attached well-formed subtree at any field path (TreeEdit: partial - item paths, insert/remove item not assembled; counter-lemma: without reattach the result is not WF); edit histories over such plugs. wf_b is evaluated on every implementation state the run dumps (parsed, edited, popped, copied, constructed) and the WF statement is monitored after every edit of seeded/focused histories over the whole API.',
+            'partial: preservation of WF by the repeated-field insert/remove algorithms rests on the token-list theorems of C03/C07 plus per-state validation by the verified checker; hand-written classes by correspondence only', 'translator (ast, fail-closed) + Coq proof over generic tree model (WF checker sound, compositional edits) + per-state validation + WF monitor'),
+    'C06': ('Partial: the re-parse statement needs the real lexer/parser (oracle) and is decided by the monitor (print, re-parse, compare content, value views and comment texts after every edit). Proved: separation of repeated-field items is preserved by every delete/insert/replace (RepeatedSep), tight fields demand nothing; formatted layouts enumerate declared fields in order; pivots are the scheme chains and are recomputed on every access (translator refuses a cached pivot).',
+            'lark is an oracle; optional-field separators covered by C03 slot theorems + monitor', 'Coq proof of separation invariant + translator facts; re-parse monitor'),
     'C07': ('Theorems about Store.v, a statement-by-statement Gallina model of token_store.py (explicit handles, block indexes, caches, load factor a variable): invariant + refinement to a plain list for every operation and history and every load factor >= 2; observers equal list functions. Full-state correspondence after every step (LF 2..16) and a plain-list monitor.',
             'contract of splice: inserted tokens are free or inside the removed range', 'Coq proof: invariant + refinement to list spec'),
     'C08': ('Theorems about Store.v: get_position = advance over the concatenated text before the token, get_index = ordinal, under the store invariant; update() keeps the size caches exact in all four branches; token_size is a monoid morphism. Correspondence on text-update-heavy histories + position monitor on stores and parsed documents.',
@@ -35,18 +35,18 @@ T = {
             'CPython re / str primitives as modelled; decimal/date formatting validated', 'Coq proof: codec round-trips + recognisers'),
     'C13': ('Theorems about NumExpr.v (every constructor/dunder of number_expr.py; arithmetic carrier abstract): printed text re-parses to the same tree, value = evaluation, operator results and parenthesisation, operands untouched, chains by induction.',
             'decimal arithmetic is a Section variable; lark lexer oracle', 'Coq proof: parse/print/eval over expression trees'),
-    'C14': ('Theorems about Comments.v: ownership invariant (<= 1 owner, claimed flag coherent) preserved by claim/unclaim/auto-claim histories; idempotence; unclaim-claim restores. Monitor: ownership tables on generated layouts, parse(flag) = parse + claim.',
-            'attribution rule as a function of line layout: partial', 'Coq proof: ownership invariant'),
-    'C15': ('Partial: proved (generated classes, per run) that from_children lays out every declared field once in order and __init__ stores every field; re-parse equality decided by the monitor over every class with from_value and random optional-argument subsets.',
-            'lark is an oracle', 'translator + Coq facts on layouts; construct-print-reparse monitor'),
+    'C14': ('Theorems about Comments.v/CommentsOwn/CommentsRestore: ownership invariant (<= 1 owner, claimed flag coherent) preserved by all six claim/unclaim calls, auto-claim sequences and node-level assignment of comments, for every history; unclaim-claim restores (surrounding: full; interleaving: partial); single-claim rule declaratively (iff); idempotence partial. Every theorem hypothesis is evaluated per trace. Monitors: ownership tables, none unowned, parse(flag)=parse+claim, idempotence, restore, hand-over histories, rule from the line layout.',
+            'whole-layout attribution rule: monitor only (known finding for posting-less transactions)', 'Coq proof: ownership invariant over histories + declarative claim rule'),
+    'C15': ('Theorems about Construct.v (generic from_children over the extracted layouts): constructed node conforms, its kids are the arguments, token texts in layout order with the declared separators, WF under two checked hypotheses (partial); layouts enumerate every declared field once in order (per-run, generated classes). Re-parse equality decided by the monitor over every class with from_value x optional-argument subsets, argument read-back, root comments, File assembly; the verified WF checker runs on every constructed model.',
+            'lark is an oracle; two recorded findings for comments that end up adjacent', 'translator + Coq proof of generic construction; construct-print-reparse monitor'),
     'C16': ('Theorems about Editor.v over a model file system (glob/normpath/parse/print as Section variables with stated laws): unchanged not written, changed = printed model exactly, removed unlinked, added created, each reachable path parsed once (BFS terminates), raise => no write. Real Editor run in temp dirs; FS-operation traces compared.',
             'OS file semantics, glob, normpath are Section variables; encodings/permissions/concurrency not modelled', 'Coq proof over model file system + trace correspondence'),
-    'C17': ('Theorems about Spacing.v (_find_spacing, getters/setters, _text_to_tokens): getter = maximal spacing run modulo empties, both sides agree, setter changes only whitespace tokens in that gap with exact length difference, get(set s) = s for non-empty s in the spacing language.',
-            '', 'Coq proof over token-list model'),
+    'C17': ('Theorems about Spacing.v: getter = maximal spacing run modulo zero-width tokens (scan form full; text-adjacent form partial + refuted witness), both sides agree when no zero-width mark splits the run (refuted otherwise: recorded finding), setter changes only whitespace tokens in that gap with exact length difference, get(set s) = s for non-empty s in the spacing language.',
+            'finding C17:both-sides:blanks-before-eol', 'Coq proof over token-list model'),
     'C18': ('Theorems about Indent.v (_get_indent/_get_default_indent, mapping and comment routes): new item takes siblings\' indent else parent indent ++ indent_by; raw nodes keep theirs; existing indents unchanged.',
             '', 'Coq proof over indent model'),
-    'C19': ('Theorems about Repeated.v/Fields.v in a statement-order-preserving model: every mutator that returns Err leaves document, items and donors unchanged; attached donors always refused. Monitor: snapshot (text, token identities, structural dump) equality after every exception.',
-            'D15 (detach of a child spanning its free parent\'s store): known finding', 'Coq proof: atomicity of refusals'),
+    'C19': ('Theorems about Repeated.v/Fields.v in a statement-order-preserving model: every mutator that returns Err leaves document, items and donors unchanged, at every point of any history, including attached and duplicate donors; attached donors always refused (partial: refuted witness for a child spanning its free parent). Monitor: snapshot equality after every exception for every refusal kind named in the property (reuse, index/key, size mismatch, comments not found, illegal cost combination, unrepresentable raw text, arithmetic operand, foreign-store tokens).',
+            'D15 known finding; out-of-domain values out of contract', 'Coq proof: atomicity of refusals over histories'),
     'C20': ('Theorems about Tree.v node_eq driven by the extracted c_eq lists: symmetric, implies equal text and class, and for wf classes is exactly equality on every declared field (no forgotten field); GeneratedWf per run. Monitor: parse-twice, cross pairs vs structural dump, perturbations, hash consistency.',
             'placeholder layout after claim+unclaim: known finding', 'translator + Coq proof over generic tree model'),
 }
